@@ -22,8 +22,9 @@ From Coq Require Import List NArith Bool.
 From XmlRs Require Import Base.CPred Model.Store Model.DomOps Proofs.DomTree Proofs.DomOpsInv
   Proofs.DomL1NoPanic Proofs.DomL1Atomic Proofs.DomL1Abs Proofs.DomL1Refine Proofs.DomL1RefineInsert Proofs.DomL1RefineAttr Proofs.DomPrintable Proofs.DomExample Proofs.DomC12
   Proofs.DomCheck Proofs.DomL1RefineValue Proofs.DomL1Frame Proofs.DomL1RefineSetAttr Proofs.DomL1RefineInv Proofs.DomL1RefineSplit
-  Proofs.DomL1RefineDoc Proofs.DomL1RefineNames Proofs.DomL1RefineAll Proofs.DomL1RefineInvCheck.
-From XmlRs Require Spec.DomCharData Spec.DomL1.
+  Proofs.DomL1RefineDoc Proofs.DomL1RefineNames Proofs.DomL1RefineAll Proofs.DomL1RefineInvCheck
+  Model.DomFacts Proofs.DomFactsAgree Proofs.DomFactsRefine.
+From XmlRs Require Spec.DomCharData Spec.DomL1 Proofs.NameLanguage Proofs.DomFactsData Proofs.DisplayLex.
 Import ListNotations.
 Open Scope N_scope.
 
@@ -111,11 +112,35 @@ Open Scope N_scope.
     [op_facts_ok] on the history keeps [WPrintable]); [C13_step_refines_reachable_fact_free]:
     histories and calls that carry no string facts (tree edits, attribute nodes, by-name removal,
     character data, text factories, split_text) need no hypothesis about facts at all.
-    NOT PROVED: that the facts computed by the implementation's parser agree with the grammar
-    (hypothesis [op_facts_agree]; it is what C02 / C18 and the [dom] correspondence are about), and
-    the calls inside the listed finding classes.  Every call is also compared with the extracted
-    [dom_step] on the implementation, call by call, by checks/C13.py (the matrix of receiver kind x
-    argument kind x position for every mutator and random histories). *)
+    THE STRING FACTS (last section of this file; Model/DomFacts.v, Proofs/DomFacts*.v).  The model of
+    the DOM takes the string-level facts of a call as parameters because the code computes them by
+    calling the parser on markup built around the argument.  [facts_of_name] / [facts_of_data]
+    compute them with the MODEL of the parser ([Peg.run] on the grammar regenerated from
+    parser/src/lib.rs and nom/src/lib.rs, read through Model/ParseActions.v), following
+    harness/src/domains/dom.rs [digest] line by line.  [C13_facts_of_name_agree],
+    [C13_facts_of_data_agree]: for EVERY string the computed facts satisfy the agreement hypotheses
+    -- QName split of element and attribute names (also through the xmlns alternative of the
+    production attribute), PI target, PI data (storable, white space skipped), the pieces of an
+    attribute value against [DomL1.parse_attvalue] -- outside two decidable exclusions:
+    * D04 ([NameLanguage.KnownD04], the predicate of C18 / C02): a PI target, an entity reference
+      name, or the name of a reference inside an attribute value ([value_D04]) that is empty or
+      starts with a name character that cannot start a Name;
+    * [KnownRefLoose]: NOT a listed finding (defect candidate, see [C13_ref_loose_refuted]):
+      create_entity_reference only asks whether xml_parser::reference("&name;") succeeds and does
+      not look at the rest, so "a;b", "amp;x", "#65" pass the name test; the call then fails with
+      the error of the entity lookup where DOM Level 1 specifies INVALID_CHARACTER_ERR.
+    [C13_step_refines_model_facts], [C13_step_refines_reachable_model_facts]: [C13_step_refines] and
+    [C13_step_refines_reachable] WITHOUT the hypotheses [op_facts_agree] / [op_facts_ok], for calls
+    and histories whose facts are the computed ones ([model_facts]) and that stay outside
+    [KnownFacts] (the two exclusions above, per operation); [C13_step_refines_strings]: every
+    operation, with the facts recomputed from its strings.
+    NOT PROVED / ASSUMED: that the implementation's parser computes what its model computes -- the
+    [prod] and [parse] correspondences (every production and the typed parse, real crates against
+    [Peg.run] and Model/ParseActions.v, on every run) and the [dom] correspondence (the facts the
+    harness prints are the arguments of the model driver); and the calls inside the listed finding
+    classes.  Every call is also compared with the extracted [dom_step] on the implementation,
+    call by call, by checks/C13.py (the matrix of receiver kind x argument kind x position for
+    every mutator and random histories). *)
 Theorem C13_step_refines_partial_append : forall w r n,
   WInv w -> KnownDocMove w r n = false ->
   DomL1.conforms (abs w) (DomL1.AAppendChild r n) (abs (fst (step w (AppendChild r n)))) (outcome_class (snd (step w (AppendChild r n)))).
@@ -481,3 +506,119 @@ Print Assumptions C13_step_refines_reachable.
 Print Assumptions C13_step_refines_reachable_fact_free.
 Print Assumptions C13_inv2_checkable.
 Print Assumptions C13_step_refines_partial_replace_document.
+
+(** ** the string facts computed by the model of the parser (see the header)
+
+    [facts_of_name s]: is "<s />" an element and s one QName (prefix, local part); is "s=''" an
+    attribute (prefix, local part, through the xmlns alternative too); is "<?s?>" a processing
+    instruction whose target is s; does reference("&s;") succeed.  [facts_of_data s]: the content
+    of "<?t s?>"; the value items of "a=" followed by s between quotation marks.  For ALL strings: *)
+Theorem C13_facts_of_name_agree : forall s,
+  elem_name_agrees (facts_of_name s) /\ attr_name_agrees (facts_of_name s)
+  /\ (NameLanguage.KnownD04 s = false -> pi_target_agrees (facts_of_name s))
+  /\ (NameLanguage.KnownD04 s = false -> KnownRefLoose s = false -> ref_name_agrees (facts_of_name s)).
+Proof. exact facts_of_name_agree. Qed.
+
+Theorem C13_facts_of_data_agree : forall s,
+  pi_data_agrees (facts_of_data s) /\ (DomFactsData.value_D04 s = false -> value_facts_agree (facts_of_data s)).
+Proof. exact facts_of_data_agree. Qed.
+
+(** the predicate of C02 on attribute values ([XmlWFLexical.no_D04], restated) is coarser than [value_D04] *)
+Theorem C13_value_D04_c02 : forall s, no_D04_c02 s = true -> DomFactsData.value_D04 s = false.
+Proof. exact no_D04_c02_value. Qed.
+
+(** the exclusions are needed.  D04: create_processing_instruction("1", ..) -- the model parser
+    returns the target 1, no PITarget.  A reference with a D04 name in an attribute value: "&1;".
+    NOT a listed finding: create_entity_reference("a;b") passes the name test (n_ref = true) although
+    "a;b" is no Name; on the implementation the call answers the error of the entity lookup
+    (err:info) where DOM Level 1 specifies INVALID_CHARACTER_ERR (likewise "#65", "amp;x"). *)
+Theorem C13_name_D04_refuted : exists s, NameLanguage.KnownD04 s = true /\ ~ pi_target_agrees (facts_of_name s).
+Proof. exact name_D04_refuted. Qed.
+
+Theorem C13_value_D04_refuted : exists s, DomFactsData.value_D04 s = true /\ ~ value_facts_agree (facts_of_data s).
+Proof. exact value_D04_refuted. Qed.
+
+Theorem C13_ref_loose_refuted : exists s,
+  NameLanguage.KnownD04 s = false /\ KnownRefLoose s = true /\ ~ ref_name_agrees (facts_of_name s).
+Proof. exact ref_loose_refuted. Qed.
+
+(** the strings inside [KnownRefLoose]: "&s;" starts with a reference of the grammar (entity
+    reference, decimal or hexadecimal character reference) and s is not a run of name characters *)
+Theorem C13_ref_loose_shape : forall s, KnownRefLoose s = true <->
+  (exists x r, DisplayLex.reference_ok x /\ 38 :: s ++ [59] = DisplayLex.d_reference x ++ r) /\ forallb NameLanguage.NC s = false.
+Proof. exact ref_loose_shape. Qed.
+
+(** [model_facts o]: the facts of [o] are the computed ones ([with_model_facts o = o]);
+    [KnownFacts o]: the D04 / [KnownRefLoose] exclusions for the strings of [o] that matter:
+    the target of create_processing_instruction, the name of create_entity_reference, the value
+    of set_attribute / set_node_value *)
+Theorem C13_model_facts_agree : forall o, model_facts o -> KnownFacts o = false -> op_facts_agree o.
+Proof. exact model_facts_agree. Qed.
+
+Theorem C13_step_refines_model_facts : forall w o ao,
+  WInv2 w -> WPrintable w -> model_facts o -> KnownFacts o = false -> Known13 w o = false -> abs_op o = Some ao ->
+  conforms_from w o ao.
+Proof. exact step_refines_model_facts. Qed.
+
+Theorem C13_step_refines_reachable_model_facts : forall init ops o ao,
+  WInv2 init -> WPrintable init -> Forall model_facts ops -> forallb (fun x => negb (KnownFacts x)) ops = true ->
+  model_facts o -> KnownFacts o = false -> Known13 (run init ops) o = false -> abs_op o = Some ao ->
+  conforms_from (run init ops) o ao.
+Proof. exact step_refines_reachable_model_facts. Qed.
+
+Theorem C13_step_refines_strings : forall w o ao,
+  WInv2 w -> WPrintable w -> KnownFacts o = false -> Known13 w (with_model_facts o) = false -> abs_op o = Some ao ->
+  conforms_from w (with_model_facts o) ao.
+Proof. exact step_refines_strings. Qed.
+
+(** a history given by strings only, on <r><a x="1">t</a><b/></r>: create_element("p:e"),
+    set_attribute(e, "xmlns:p", "u&amp;v"), create_processing_instruction("t", "  d?"),
+    create_entity_reference("amp"), set_node_value(x, "a&#65;b'c"), append_child(b, e), then five
+    refused calls: create_element("1a"), create_processing_instruction("xMl", "d"),
+    create_processing_instruction("t", "?>"), set_attribute(a, "y", "&nope;"),
+    set_attribute(a, "y", "a<"); then set_attribute(a, "y", "1&lt;2") conforms to DOM Level 1.
+    The document then prints <r><a x="a&#65;b'c" y="1&lt;2">t</a><b><p:e xmlns:p="u&amp;v" /></b></r> *)
+Definition mf_ops : list op := map with_model_facts
+  [ CreateElement (0, 1) (sname [112; 58; 101]);
+    SetAttribute (0, 8) (sname [120; 109; 108; 110; 115; 58; 112]) (sdata [117; 38; 97; 109; 112; 59; 118]);
+    CreateProcessingInstruction (0, 1) (sname [116]) (sdata [32; 32; 100; 63]);
+    CreateEntityReference (0, 1) (sname [97; 109; 112]);
+    SetNodeValue (0, 4) (sdata [97; 38; 35; 54; 53; 59; 98; 39; 99]);
+    AppendChild (0, 7) (0, 8);
+    CreateElement (0, 1) (sname [49; 97]);
+    CreateProcessingInstruction (0, 1) (sname [120; 77; 108]) (sdata [100]);
+    CreateProcessingInstruction (0, 1) (sname [116]) (sdata [63; 62]);
+    SetAttribute (0, 3) (sname [121]) (sdata [38; 110; 111; 112; 101; 59]);
+    SetAttribute (0, 3) (sname [121]) (sdata [97; 60]) ].
+Definition mf_last : op := with_model_facts (SetAttribute (0, 3) (sname [121]) (sdata [49; 38; 108; 116; 59; 50])).
+
+Example C13_model_facts_example :
+  Forall model_facts mf_ops /\ forallb (fun o => negb (KnownFacts o)) mf_ops = true
+  /\ map (fun k => snd (step (run ex_world (firstn k mf_ops)) (nth k mf_ops (Query (0, 0))))) (seq 0 11)
+     = [Ok (RNode (0, 8)); Ok RUnit; Ok (RNode (0, 13)); Ok (RNode (0, 14)); Ok RUnit; Ok (RNode (0, 8));
+        Failed InvalidCharacterErr; Failed InvalidCharacterErr; Failed InvalidCharacterErr; Failed InfoErr; Failed InfoErr]
+  /\ conforms_from (run ex_world mf_ops) mf_last (DomL1.ASetAttribute (0, 3) [121] [49; 38; 108; 116; 59; 50])
+  /\ snd (step (run ex_world mf_ops) mf_last) = Ok RUnit.
+Proof.
+  destruct C13_example_attr as [H2 [Hp _]].
+  assert (M : Forall model_facts mf_ops) by apply map_model_facts.
+  assert (K : forallb (fun o => negb (KnownFacts o)) mf_ops = true) by (vm_compute; reflexivity).
+  split; [exact M|]. split; [exact K|]. split; [vm_compute; reflexivity|]. split; [|vm_compute; reflexivity].
+  apply C13_step_refines_reachable_model_facts; try assumption.
+  - apply with_model_facts_model.
+  - vm_compute. reflexivity.
+  - vm_compute. reflexivity.
+  - reflexivity.
+Qed.
+
+Print Assumptions C13_facts_of_name_agree.
+Print Assumptions C13_facts_of_data_agree.
+Print Assumptions C13_value_D04_c02.
+Print Assumptions C13_name_D04_refuted.
+Print Assumptions C13_value_D04_refuted.
+Print Assumptions C13_ref_loose_refuted.
+Print Assumptions C13_ref_loose_shape.
+Print Assumptions C13_model_facts_agree.
+Print Assumptions C13_step_refines_model_facts.
+Print Assumptions C13_step_refines_reachable_model_facts.
+Print Assumptions C13_step_refines_strings.
